@@ -133,6 +133,18 @@ def generate(rng, tier):
             ops.append({"op": "ds_put", "h": h, "name": rng.choice(["mesh", "part"]), "g": rng.randrange(3)})
         elif r < 0.63:
             ops.append({"op": "comp", "h": h, "i": rng.randrange(64), "c": rng.randrange(3)})
+        elif r < 0.68:
+            ops.append({"op": "vslice", "h": h, "i": rng.randrange(64), "a": rng.choice([None, 0, 1]), "b": rng.choice([None, None, n - 1]), "s": rng.choice([None, None, 1, 2])})
+        elif r < 0.74:
+            # aliasing chain: y = v.<c>[sl] (a view of one component), w = v[sl], then w op= y: the operand is a sibling
+            # view of one of the target's components (negative indices pick the most recent handle of the kind)
+            a, b, st = rng.choice([None, 0, 1]), rng.choice([None, None, n - 1]), rng.choice([None, None, 1, 2])
+            vi = rng.randrange(64)
+            ops.append({"op": "comp", "h": h, "i": vi, "c": rng.randrange(3)})
+            ops.append({"op": "slice", "h": h, "i": -1, "a": a, "b": b, "s": st})
+            ops.append({"op": "vslice", "h": h, "i": vi, "a": a, "b": b, "s": st})
+            ops.append({"op": "inplace", "h": h, "i": -1, "sym": rng.choice("+-*/"),
+                        "rhs": {"kind": "live", "unitrel": "same", "vals": gen_vals(rng, n, "f8"), "num": 2.0, "pick": -2}})
         else:
             ops.append({"op": "inplace", "h": h, "i": rng.randrange(64), "sym": rng.choice("+-*/"), "rhs": gen_rhs(rng, n)})
     return {"n": n, "ops": ops}
@@ -355,6 +367,31 @@ def execute(case, stats):
                     V(step, op, "identity", {"group_returns_other_object": key})
                 if h not in G.handles:
                     G.handles.append(h)
+            elif k == "vslice":
+                # slice of a Vector.  Whether it is a view is not fixed by the statement: the model follows what the
+                # implementation does (observed with np.shares_memory at creation) so that operands which alias the
+                # components of such a Vector can be generated
+                vecs = [hh for hh in G.handles if hh[0] == "vec"]
+                if not vecs or len(G.handles) >= MAXOBJ:
+                    continue
+                hv = vecs[op["i"] % len(vecs)]
+                sl = slice(op["a"], op["b"], op["s"])
+                pv = G.vec[hv[1]]
+                if len(G.arr[pv["comps"][0]]["idx"][sl]) == 0:
+                    continue
+                real = pv["real"][sl]
+                oc = []
+                for co, name in zip(pv["comps"], "xyz"):
+                    a = G.arr[co]
+                    rc = getattr(real, name)
+                    if np.shares_memory(rc._array, getattr(pv["real"], name)._array):
+                        oc.append(G.new_arr(rc, a["buf"], a["idx"][sl], a["unit"]))
+                        stats.inc("probe.vector_slice_is_view")
+                    else:
+                        oc.append(G.new_arr(rc, G.new_buf(G.vals(co)[sl].copy()), np.arange(len(a["idx"][sl])), a["unit"]))
+                no = G.nid()
+                G.vec[no] = {"comps": oc, "real": real}
+                G.handles.append(("vec", no))
             elif k == "comp":
                 vecs = [hh for hh in G.handles if hh[0] == "vec"]
                 if not vecs or len(G.handles) >= MAXOBJ:
